@@ -280,6 +280,35 @@ def run_warning(col):
             col.add("C06.O3", "Region.reload warning (dV < 0)", "a warning is issued whenever some differential volume is negative", len(warns) == 1, "%s: %d warnings" % (w, len(warns)))
         else:
             col.add("C06.O3", "Region.reload no warning (dV > 0)", "no warning for positively oriented cells", len(warns) == 0, "%s: %s" % (w, warns[:1]))
+            # history: the region was created on a valid mesh; the mesh points are then moved in place so that cells turn inside out, and the
+            # region is re-evaluated in one of the documented ways -- with the mesh, without any argument, through copy() / astype()
+            neg_oracle = lambda a, b, op: ({"<": True, "<=": True, ">": False, ">=": False}[op] if (b.is_const() and b.const_value() == 0) else None)
+            for how in ("reload(mesh)", "reload()", "reload(hess=True)", "copy()", "astype(float32)"):
+                n0 = len([e for e in it.events if e[0] == "warn"])
+                mesh.points = symarray("Xmirrored", mesh.points.shape)
+                ring.ORDER_ORACLE[0] = neg_oracle
+                try:
+                    if how == "reload(mesh)":
+                        it.call_method(reg, "reload", [], dict(mesh=mesh))
+                    elif how == "reload()":
+                        it.call_method(reg, "reload", [], {})
+                    elif how == "reload(hess=True)":
+                        it.call_method(reg, "reload", [], dict(hess=True))
+                    elif how == "copy()":
+                        it.call_method(reg, "copy", [], {})
+                    else:
+                        it.call_method(reg, "astype", [it.getattr(it.externals["numpy"], "float32")], {})
+                    err = None
+                except (InterpRaise, ring.Undecided) as e:
+                    err = str(e)
+                finally:
+                    ring.ORDER_ORACLE[0] = None
+                n1 = len([e for e in it.events if e[0] == "warn"])
+                if err is not None:
+                    col.undecided("C06.O3", "Region.%s after the mesh was inverted in place" % how, "warning", err[:200])
+                else:
+                    col.add("C06.O3", "Region.%s after the mesh was inverted in place" % how, "every re-evaluation that yields a negative differential volume reports it by a warning (with or without a mesh argument)",
+                            n1 - n0 >= 1, "%s: %d warnings" % (w, n1 - n0))
         finish_info(col, it)
 
 
